@@ -88,7 +88,7 @@ func rulesC17(c *Ctx) {
 	if fn := c.needFn("C17.keys", fnVerifyRN); fn != nil {
 		// (1) subKeys literal
 		lit := map[string]bool{}
-		for _, b := range fn.Blocks {
+		for _, b := range blocksIP(fn) {
 			for _, in := range b.Instrs {
 				st, ok := in.(*ssa.Store)
 				if !ok {
